@@ -330,7 +330,9 @@ def run(ctx):
     for r in recs:
         j = r["meta"]["job"]
         last = r["meta"]["last"]
-        if last["ev"] == "Error" and last.get("diagnosed"):
+        # (a misplaced line break leaves TWO malformed lines; which of them a chunk sees first depends on where the chunk ends, and either is a
+        # line of the offending record: the one-line-number rule is for records with one offending line)
+        if last["ev"] == "Error" and last.get("diagnosed") and j["cls"] != "misplaced-line-break":
             groups.setdefault(json.dumps([j["fmt"], j["cls"], j["specs"], j["bad"], j["finalnl"]]), {}).setdefault(last["line"], j)
     for key, lines in groups.items():
         if len(lines) > 1:
